@@ -372,6 +372,39 @@ func main() {
 	guarded = guarded && cpc != nil && strings.Contains(src(cpc), "checkLockOwnership(e.fragment, e.hkey, e.lockToken)")
 	addBool("lock_release_compares_under_fragment_lock", guarded, "unlockKey/leaseKey finish with deleteLockKey/expireLockKey, which compare the stored token under the fragment lock before deleting / updating the expiry")
 
+	// ---- structural facts: eviction (C10)
+	evGo := parse("internal/dmap/eviction.go")
+	ek := funcDecl(evGo, "DMap", "evictKeyWithLRU")
+	lruOK := false
+	if ek != nil {
+		t := src(ek)
+		// samples LRUSamples entries (counter starts at 0, stops at lruSamples), an empty sample is not an error,
+		// the victim is deleted on the whole cluster
+		lruOK = strings.Contains(t, "var idx = 0") && strings.Contains(t, "idx >= dm.config.lruSamples") &&
+			strings.Contains(t, "dm.deleteOnCluster(item.HKey, key, e.fragment)")
+		ast.Inspect(ek.Body, func(n ast.Node) bool {
+			if ifs, ok := n.(*ast.IfStmt); ok && strings.Contains(src(ifs.Cond), "len(items) == 0") {
+				lruOK = lruOK && strings.Contains(src(ifs.Body), "return nil")
+			}
+			return true
+		})
+	}
+	addBool("lru_evicts_one_sampled_entry", lruOK, "evictKeyWithLRU samples lruSamples entries, deletes one of them on the cluster, and treats an empty fragment as nothing to evict")
+	sle := funcDecl(putGo, "DMap", "setLRUEvictionStats")
+	once := false
+	if sle != nil {
+		t := src(sle)
+		once = strings.Count(t, "storage.Stats()") == 1 && strings.Contains(t, "st.Length > 0 && st.Length >= dm.config.maxKeys/int(ownedPartitionCount)") &&
+			strings.Contains(t, "st.Inuse > 0 && st.Inuse >= dm.config.maxInuse/int(ownedPartitionCount)") &&
+			strings.Index(t, "storage.Stats()") < strings.Index(t, "evictKeyWithLRU")
+	}
+	addBool("lru_limits_checked_on_one_snapshot", once, "setLRUEvictionStats reads the statistics once, then checks MaxKeys and MaxInuse against their per-partition shares")
+	sfe := funcDecl(evGo, "Service", "scanFragmentForEviction")
+	scanOK := sfe != nil && strings.Contains(src(sfe), `getOrCreateDMap(strings.TrimPrefix(name, "dmap."))`) &&
+		strings.Contains(src(sfe), "isKeyExpired(ttl) || dm.isKeyIdleOnFragment(hkey, f)") &&
+		strings.Contains(src(sfe), "dm.deleteOnCluster(hkey, key, f)")
+	addBool("eviction_scan_deletes_expired_or_idle_on_cluster", scanOK, "scanFragmentForEviction resolves the DMap by its own name and deletes expired or idle entries with deleteOnCluster")
+
 	// ---- structural facts: pub/sub (C14)
 	psGo := parse("internal/pubsub/pubsub.go")
 	pub := funcDecl(psGo, "PubSub", "Publish")
